@@ -100,7 +100,7 @@ PINS = {
     "C03": {"inv", "ret", "gq0", "cq", "skip", "err"},
     "C04": {"cq", "br", "gq0", "inv", "skip", "err"},
     "C06": {"err", "sq", "cq", "gq0", "pr", "leak", "inv", "skip"},
-    "C07": {"pf", "pr", "leak", "err", "skip"},
+    "C07": {"pf", "pr", "gq0", "leak", "err", "skip"},
     "C08": {"inv", "ret", "gq0", "cq", "skip", "err"},
     "C12": {"br", "inv", "ret", "cq", "sq", "gq0", "skip", "err"},
     "C13": {"inv", "ret", "skip", "err"},
@@ -140,12 +140,12 @@ def split_program(line):
     toks = line.split()
     secs = []
     i = 0
-    ar = {"tnew": 1, "tdel": 1, "tasg": 2, "tmasg": 2, "tnot": 1, "sempty": 2, "scopy": 2, "smove": 2, "sasg": 2, "smasg": 2,
+    ar = {"tnew": 1, "tnewsh": 1, "trel": 1, "tdel": 1, "tasg": 2, "tmasg": 2, "tnot": 1, "sempty": 2, "scopy": 2, "smove": 2, "sasg": 2, "smasg": 2,
           "scall": 3, "sblock": 2, "sdisc": 1, "sdel": 1, "sq": 1, "gnew": 4, "gcopy": 2, "gmove": 2, "gasg": 2, "gmasg": 2, "gdel": 1,
           "gconn": 5, "gemit": 3, "gclear": 1, "gblock": 2, "gq": 1, "gmk": 2, "cempty": 1, "ccopy": 2, "casg": 2, "cdisc": 1,
           "cblock": 2, "cdel": 1, "cq": 1, "knew": 2, "kempty": 1, "kasg": 2, "kmove": 2, "kmasg": 2, "kswap": 2, "krel": 2,
           "kdisc": 1, "kblock": 2, "kdel": 1, "kq": 1, "probe": 0, "throw": 0,
-          "acopy": 2, "ainc": 1, "adec": 1, "aderef": 1, "awalk": 1, "awalkrev": 1, "awalkuntil": 2}
+          "acopy": 2, "ainc": 1, "adec": 1, "aincp": 1, "adecp": 1, "awalkp": 1, "awalkrevp": 1, "aderef": 1, "awalk": 1, "awalkrev": 1, "awalkuntil": 2}
     while i < len(toks):
         t = toks[i]
         if t == "S":
@@ -157,10 +157,14 @@ def split_program(line):
         elif t == "M":
             hdr = [t]
             i += 1
+        elif t == "O":
+            n = int(toks[i + 2])
+            hdr = toks[i:i + 3 + n]
+            i += 3 + n
         else:
             raise ValueError("bad section " + t)
         ops = []
-        while i < len(toks) and toks[i] not in ("S", "A", "M"):
+        while i < len(toks) and toks[i] not in ("S", "A", "M", "O"):
             m = toks[i]
             if m == "snew":
                 n = int(toks[i + 5])
